@@ -130,6 +130,17 @@ MUTANTS = {
         ('pseudo-restore-loses-next-inode', 'src/api/pseudo_fs.rs', "            self.next_inode.store(state.next_inode, Ordering::Relaxed);\n", "\n"),
         ('pseudo-restore-child-under-root', 'src/api/pseudo_fs.rs', "let parent = inode_map.get_mut(&inode.parent).ok_or_else(|| {", "let parent = inode_map.get_mut(&ROOT_ID).ok_or_else(|| {"),
     ],
+    'C05': [
+        ('mkdir-ignores-umask', 'src/passthrough/sync_io.rs', 'libc::mkdirat(file.as_raw_fd(), name.as_ptr(), mode & !umask)', 'libc::mkdirat(file.as_raw_fd(), name.as_ptr(), mode)'),
+        ('symlink-swaps-target-name', 'src/passthrough/sync_io.rs', 'libc::symlinkat(linkname.as_ptr(), file.as_raw_fd(), name.as_ptr())', 'libc::symlinkat(name.as_ptr(), file.as_raw_fd(), linkname.as_ptr())'),
+        ('rmdir-without-removedir', 'src/passthrough/sync_io.rs', 'self.do_unlink(parent, name, libc::AT_REMOVEDIR)', 'self.do_unlink(parent, name, 0)'),
+        ('fsync-ignores-datasync', 'src/passthrough/util.rs', '        if datasync {\n            libc::fdatasync(fd.as_raw_fd())', '        if false {\n            libc::fdatasync(fd.as_raw_fd())'),
+        ('utimens-omits-requested-atime', 'src/passthrough/sync_io.rs', 'tvs[0].tv_nsec = attr.st_atime_nsec;', 'tvs[0].tv_nsec = libc::UTIME_OMIT;'),
+        ('create-without-caller-credentials', 'src/passthrough/sync_io.rs', '            let (_uid, _gid) = set_creds(ctx.uid, ctx.gid)?;\n\n            let flags = self.get_writeback_open_flags(args.flags as i32);', '            let flags = self.get_writeback_open_flags(args.flags as i32);'),
+        ('scoped-cred-drop-restores-wrong-id', 'src/passthrough/mod.rs', 'libc::syscall($syscall_nr, -1, 0, -1)', 'libc::syscall($syscall_nr, -1, 1, -1)'),
+        ('statfs-wrong-descriptor', 'src/passthrough/sync_io.rs', 'libc::fstatvfs64(file.as_raw_fd(), out.as_mut_ptr())', 'libc::fstatvfs64(self.proc_self_fd.as_raw_fd(), out.as_mut_ptr())'),
+        ('getxattr-count-query-returns-value', 'src/passthrough/sync_io.rs', '        if size == 0 {\n            Ok(GetxattrReply::Count(res as u32))', '        if false {\n            Ok(GetxattrReply::Count(res as u32))'),
+    ],
     'C06x': [],
     'C07': [
         ('index-shift-48', V, "const VFS_INDEX_SHIFT: u8 = 56;", "const VFS_INDEX_SHIFT: u8 = 48;"),
